@@ -242,12 +242,7 @@ class Scenario(object):
 
 
 # ----------------------------------------------------------------------------- running
-LSAN_SUPP = """# leaks that belong to other properties' candidate defects (C03/C16), not to C02/C18:
-# D15 duplicate calloc of vnm_s_matrix in _vnacal_new_add_common, D37 vnacal_free does not
-# release the calibration vector
-leak:_vnacal_new_add_common
-leak:_vnacal_add_calibration_common
-leak:vnacal_add_calibration
+LSAN_SUPP = """# no suppressions: the leaks that belonged to other properties' defects (D15, D37) are repaired
 """
 
 
